@@ -17,7 +17,7 @@ class C15(C06):
             "kinds race; bundles with a locale CHAIN whose head has no plural rules of its own), custom values (as_string_threadsafe) and functions; on the same line the same program runs "
             "sequentially (th=1). Half of the lines use a POOL of long-lived worker threads and one process-wide bundle slot: a "
             "second bundle of another locale replaces the first in place (same address) and is used by the same threads. "
-            "Schedule SAMPLING: real interleavings are not enumerated. Non-trivial = the program "
+            "A duo family starts two COLD bundles of different locales at the same instant on two threads, 1500 times with fresh bundles (state shared between bundles must not leak). Schedule SAMPLING: real interleavings are not enumerated. Non-trivial = the program "
             "contains a plural-category select on a number; distinct = distinct case line.")
     EXPLANATION = ("Theorems (see evidence): every request's result in the model is a function of (bundle, request) alone — "
                    "the only shared mutable state a request touches is the memoizer, whose concurrent model (C14) shows for ALL "
@@ -87,19 +87,41 @@ class C15(C06):
             parts.append("%s;th=1 %s" % (cfgbase, body))
         return "fmt " + " | ".join(parts)
 
+    def duo(self, rng, rounds):
+        """two COLD concurrent bundles of different locales making their first plural requests at the same instant on two
+        threads, `rounds` times with fresh bundles: state shared between bundles (a process-wide cache of negotiated
+        locales, of rule tables, of compiled patterns) must not leak from one into the other"""
+        prog = ("p0 = { $n ->\n [one] one\n [few] few\n [many] many\n *[other] other\n }\n"
+                "p1 = { NUMBER($n, type: \"ordinal\") ->\n [one] st\n [two] nd\n [few] rd\n *[other] th\n }\n"
+                "p2 = { $n } { $c }\n")
+        l1, l2 = rng.sample(["en", "pl", "ru", "ar", "cs", "fr", "lt", "xx+pl", "ja"], 2)
+        reqs = []
+        # mostly ONE rule kind per line: the last formatter constructed in a round is then of the kind the next round's
+        # first request needs (a process-wide "last used" cache is hit by one bundle while the other replaces it)
+        kinds = [rng.choice(["p0", "p1"])] * 2 + ["p2"] if rng.random() < 0.7 else rng.sample(["p0", "p1", "p0", "p1", "p2"], 4)
+        for m in kinds:
+            reqs.append("%s:~:%s=%s&%s=%s" % (hx(m), hx("n"), rng.choice(["i2", "i3", "i5", "i22", "i1"]), hx("c"), "m" + hx("ok1")))
+        opts = "iso=0;tr=%s;fm=none;fl=conc" % rng.choice(["none", "pseudo"])
+        body = "a:%s %s %s" % (hx(prog), ",".join(resgen.FUNCS), ",".join(reqs))
+        return "fmt %s;loc=%s;loc2=%s;duo=%d %s" % (opts, l1, l2, rounds, body)
+
     def generate(self, rng, tier):
         n = 400 if tier == "quick" else 30000
         for _ in range(n):
             yield self.program(rng)
+        for _ in range(12 if tier == "quick" else 300):
+            yield self.duo(rng, 1500)
 
     def predicate(self, case, impl_obs):
+        if "DUO-DISAGREE" in impl_obs:
+            return "a bundle formats differently next to a concurrently starting bundle of another locale: " + impl_obs[impl_obs.index("DUO-DISAGREE"):][:260]
+        if "THREADS-DISAGREE" in impl_obs:
+            return "threads disagree on a request's result: " + impl_obs[impl_obs.index("THREADS-DISAGREE"):][:160]
         bad = super().predicate(case, impl_obs)
         if bad:
             return bad
-        if "THREADS-DISAGREE" in impl_obs:
-            return "threads disagree on a request's result: " + impl_obs[impl_obs.index("THREADS-DISAGREE"):][:160]
         subs = impl_obs.split(" | ")
-        if len(subs) % 2 == 0:
+        if len(subs) % 2 == 0 and "duo=" not in case:
             for i in range(0, len(subs), 2):
                 if subs[i] != subs[i + 1]:
                     return "concurrent results differ from the sequential run (bundle %d of the line)" % (i // 2 + 1)
